@@ -15,6 +15,8 @@ DOC = {
 def judge(pid, rec):
     """Returns 'ok' | 'genuine' | 'rejected' for one program record."""
     a, o = rec["real"], rec["oracle"]
+    if a.startswith("fault skipped"):
+        return "rejected"         # not run (the process had already hung several times in this batch)
     if a.startswith("fault"):
         return "genuine"          # crash / hang / UB while assembling
     if not a.startswith("ok "):
